@@ -53,7 +53,25 @@ def generate(problems):
             except ArgumentError:
                 continue
             rows.append((dname, gname, type(r).__name__))
+    # the steps of ArgumentParser._get_instantiators that build the lookup order (assignments to / updates of `instantiators`)
+    core = ast.parse(open(os.path.join(REPO, "jsonargparse", "_core.py")).read())
+    gi = _func(core, "_get_instantiators")
+    steps = []
+    if gi is None:
+        problems.append("ClassPathTables: _get_instantiators not found")
+    else:
+        nodes = []
+        for n in ast.walk(gi):
+            if isinstance(n, ast.Assign) and any(isinstance(t, ast.Name) and t.id == "instantiators" for t in n.targets):
+                if not (isinstance(n.value, ast.Call) and isinstance(n.value.func, ast.Attribute) and n.value.func.attr == "copy"):
+                    nodes.append(n)
+            elif isinstance(n, ast.Expr) and isinstance(n.value, ast.Call) and isinstance(n.value.func, ast.Attribute) \
+                    and n.value.func.attr == "update" and isinstance(n.value.func.value, ast.Name) and n.value.func.value.id == "instantiators":
+                nodes.append(n)
+        nodes.sort(key=lambda n: (n.lineno, n.col_offset))
+        steps = [ast.unparse(n) for n in nodes]
     body = "namespace Jap.Gen\n"
+    body += "def getInstantiatorsSteps : List String := %s\n" % lean_str_list(steps)
     body += "def scalarCoercions : List (String × String × String) := [%s]\n" % ", ".join('("%s", "%s", "%s")' % r for r in rows)
     body += "def subclassSpecKeys : List String := %s\n" % lean_str_list(keys)
     body += "def nestedArgRoots : List String := %s\n" % lean_str_list(roots)
